@@ -10,7 +10,7 @@ WORDS = ["fix", "add", "update", "refactor: split", "feat(api): new", "docs", "b
          "done: 100%", "merge", "tmp", "[WIP] start", "fix: #12 crash", "chore(deps): up", "éclair", "x"]
 ADVERSARIAL_SUBJECTS = ["revert [abcde12] again", "by Ann Lee 2020-01-01 confirmed", "released 2020-02-02 build", "cafe [deadbeef]", "double  space",
                         "tab\tinside", "[12345] only", "fix: date 2020-03-04"]
-DIRS = ["", "src/", "src/main/", "docs/", "a b/"]
+DIRS = ["", "src/", "src/main/", "docs/", "a b/", "domain/", "core/domain/x/"]
 NAMES = ["f.txt", "g.go", "Main.java", "read me.md", "x.bin", "h.txt", "k.py"]
 
 
@@ -316,9 +316,27 @@ def rand_commits(rng):
                 base = p.split("/")[-1]
                 d = p[:len(p) - len(base)]
                 to = rng.choice([d + "n%d_%s" % (i, base), rng.choice(DIRS) + "m%d_%s" % (i, base), "top%d_%s" % (i, base)])
+                arrow = None
+                r2 = rng.random()
+                if r2 < 0.2:
+                    # brace notation with an EMPTY old or new part, with and without a common prefix (synthesised
+                    # directly: git itself only prints the prefixed variants)
+                    parts = p.split("/")
+                    if len(parts) >= 2 and rng.random() < 0.5:
+                        k = rng.randint(0, len(parts) - 1)
+                        pre = "/".join(parts[:k])
+                        suf = "/".join(parts[k:])
+                        to = (pre + "/" if pre else "") + "nd%d/" % i + suf
+                        arrow = (pre + "/" if pre else "") + "{ => nd%d}/" % i + suf
+                    elif len(parts) >= 3:
+                        k = rng.randint(0, len(parts) - 2)
+                        pre = "/".join(parts[:k])
+                        suf = "/".join(parts[k + 1:])
+                        to = (pre + "/" if pre else "") + suf
+                        arrow = (pre + "/" if pre else "") + "{%s => }/" % parts[k] + suf
                 if to in files or to in touched:
                     continue
-                chs.append({"Added": rng.choice([0, 1]), "Deleted": 0, "File": git_arrow(p, to), "Mode": ""})
+                chs.append({"Added": rng.choice([0, 1]), "Deleted": 0, "File": arrow or git_arrow(p, to), "Mode": ""})
                 del files[p]
                 files[to] = True
                 touched.add(p)
